@@ -52,8 +52,23 @@ def tabulate(facts):
     if clo is None:
         raise KeyError("anchor-missing: per-file closure of validation::validate")
     entry = AdtVal("tuple", None, {0: Cell(Opaque("ID")), 1: Cell(Opaque("fr", "parser::ParseFileResult<ID>"))})
-    cp, _ = run_closure(facts, clo, {"defined": sym_ref("defined")}, [entry], opaque_fns=OPS)
+    cp, _ = run_closure(facts, clo, {"defined": sym_ref("defined")}, [entry], opaque_fns=OPS, lenient=True)
     return clo, cp
+
+
+def captures_rule(facts, rep, prop, clo):
+    """the per-file closure may capture only the shared key -> kind map, by shared reference: anything else is state shared
+    between files (the files are visited in HashMap order: one file's result would depend on which files came before it)"""
+    f = facts.fns[clo]
+    ok_all = True
+    for c in f.get("captures") or []:
+        shared_map = c["ty"].startswith("std::collections::HashMap<std::string::String, ast::ResolvedItemKind") and "Mutable" not in c["by"]
+        if not shared_map:
+            ok_all = False
+        rep.check(shared_map, "PL", "%s|PL|captures|%s" % (prop, c["ty"]), cfg.where(f),
+                  "the per-file closure of validation::validate captures `%s` (%s, %s): the only thing files may share is the read-only key -> kind map; anything else lets one file's names / results leak into "
+                  "the files validated after it, in HashMap order" % (c["name"], c["ty"], c["by"]), sample={"capture": c["name"], "type": c["ty"], "by": c["by"]})
+    return ok_all
 
 
 def qn_closures(facts, clo):
@@ -78,6 +93,8 @@ def rule(ctx, rep, prop, focus):
                    "conditional on nothing but 'has a tree' and the item's kind" % ", ".join(focus))
     clo, paths = tabulate(facts)
     fclo = facts.fns[clo]
+    if not focus or "resolve_types" in focus:
+        captures_rule(facts, rep, prop, clo)   # shared state reaches a file through name resolution (and makes the output order-dependent)
     qn = qn_closures(facts, clo)
     tree = [p for p in paths if ("variant", "fr.ast") in [l for l, v in p.conds if v == "Some"] or any(l == ("variant", "fr.ast") and v == "Some" for l, v in p.conds)]
     rep.floor("PL", "paths of the per-file closure that have a tree", len(tree), 2)
